@@ -180,9 +180,11 @@ def runOp (objs : List Cfg) (i : Nat) (ws : List String) : List Cfg × String :=
       | .ok (c', o) => (setAt objs i c', showOut o)
       | .error e => (objs, showErr e)
 
-/-- `frozen[i]` = the view object `i` keeps showing after an unmerged load, until its next operation -/
+/-- `frozen[i]` = the (stale) view object `i` keeps showing after an unmerged load, until its next operation that
+    merges.  A root-level `del` of a key that the STALE view does not have raises KeyError / AttributeError in
+    `del self._config[key]` before anything is tracked or merged: nothing changes, the object stays unmerged. -/
 def runHistory (ops : List String) : String :=
-  let rec go (objs : List Cfg) (frozen : List (Option String)) (ops : List String) (acc : List String) : List String :=
+  let rec go (objs : List Cfg) (frozen : List (Option KVs)) (ops : List String) (acc : List String) : List String :=
     match ops with
     | [] => acc.reverse
     | o :: rest =>
@@ -190,13 +192,23 @@ def runHistory (ops : List String) : String :=
         | i :: r => (i.toNat?.getD 0, ":".intercalate r)
         | [] => (0, "")
       let ws := body.splitOn " "
-      let before : String := match frozen.getD idx none with
-        | some v => v
-        | none => showView (objs.getD idx {})
-      let (objs', res) := runOp objs idx ws
+      let cur : Cfg := objs.getD idx {}
+      let before : Option KVs := match frozen.getD idx none with
+        | some v => some v
+        | none => (match cur.view with | .ok v => some v | .error _ => none)
+      let staleMiss : Option String := match frozen.getD idx none, ws with
+        | some fv, ["DI", "-", k] => if (lookup k.toList fv).isNone then some "E:key" else none
+        | some fv, ["DA", "-", k] => if (lookup k.toList fv).isNone then some "E:attr" else none
+        | _, _ => none
+      let (objs', res) := match staleMiss with
+        | some e => (objs, e)
+        | none => runOp objs idx ws
       let frozen1 := frozen ++ List.replicate (objs'.length - frozen.length) none
-      let frozen' := frozen1.set idx (if ws.head? == some "LOADU" then some before else none)
-      let shown := (objs'.zip frozen').map fun (c, f) => match f with | some v => v | none => showView c
+      let keep := ws.head? == some "LOADU" || staleMiss.isSome
+      let frozen' := frozen1.set idx (if keep then before else none)
+      let shown := (objs'.zip frozen').map fun (c, f) => match f with
+        | some v => showVal (.dict v)
+        | none => showView c
       let line := "#".intercalate (res :: shown)
       go objs' frozen' rest (line :: acc)
   "|".intercalate (go [] [] ops [])
